@@ -354,7 +354,9 @@ size_t varintAdaptiveEncodeWith(uint8_t *dst, const uint64_t *values,
     }
 
     case VARINT_ADAPTIVE_FOR: {
-        varintFORMeta forMeta;
+        /* count 0 != count: tells varintFOREncode the meta is not analysed yet
+         * (it compares meta->count with count before trusting the struct) */
+        varintFORMeta forMeta = {0};
         encodedSize = varintFOREncode(dst + offset, values, count, &forMeta);
 
         if (meta) {
